@@ -44,22 +44,22 @@ theorem finvStopB_stable_D (d : Disk) (segs0 : List Seg) (st : List (Nat × Nat)
   rfl
 
 /-- the disk after `set`: unchanged (the commit failed) or only the stable store changed -/
-theorem runOp_set_disk_D (p : Proc) (key val : Nat) (k : Option Nat) (wf : WriteFail) :
-    (runOp p (.set key val) k wf).1.frozen = p.frozen ∧
-    ((runOp p (.set key val) k wf).1.disk = p.disk ∨
-     (runOp p (.set key val) k wf).1.disk =
+theorem runOp_set_disk_D (p : Proc) (key val : Nat) (pl : Plan) :
+    (runOp p (.set key val) pl).1.frozen = p.frozen ∧
+    ((runOp p (.set key val) pl).1.disk = p.disk ∨
+     (runOp p (.set key val) pl).1.disk =
        { p.disk with md := { p.disk.md with stable := upsert p.disk.md.stable key val } }) := by
-  cases k with
-  | none => exact ⟨rfl, Or.inr rfl⟩
-  | some n =>
-    cases n with
-    | zero => exact ⟨rfl, Or.inl rfl⟩
-    | succ n => exact ⟨rfl, Or.inr rfl⟩
+  cases pl with
+  | nil => exact ⟨rfl, Or.inr rfl⟩
+  | cons o pl =>
+    cases o with
+    | none => exact ⟨rfl, Or.inr rfl⟩
+    | some wf => exact ⟨rfl, Or.inl rfl⟩
 
-theorem finvS_set (p : Proc) (hi : FInvS p) (key val : Nat) (k : Option Nat) (wf : WriteFail) :
-    FInvS (runOp p (.set key val) k wf).1 := by
-  obtain ⟨hf, hd⟩ := runOp_set_disk_D p key val k wf
-  generalize (runOp p (.set key val) k wf).1 = q at hf hd
+theorem finvS_set (p : Proc) (hi : FInvS p) (key val : Nat) (pl : Plan) :
+    FInvS (runOp p (.set key val) pl).1 := by
+  obtain ⟨hf, hd⟩ := runOp_set_disk_D p key val pl
+  generalize (runOp p (.set key val) pl).1 = q at hf hd
   obtain ⟨qd, qf⟩ := q
   simp only at hf hd
   subst hf
@@ -76,10 +76,10 @@ theorem finvS_set (p : Proc) (hi : FInvS p) (key val : Nat) (k : Option Nat) (wf
       exact ⟨by rw [finvStopB_stable_D]; exact h1, by rw [fextraStopB_stable]; exact h2⟩
 
 /-- a stopped process refuses every call but `set`: `FInvS` is kept -/
-theorem finvS_call_stopped (p : Proc) (hi : FInvS p) (hs : p.frozen.isSome = true) (op : Op) (k : Option Nat)
-    (wf : WriteFail) : FInvS (runOp p op k wf).1 := by
+theorem finvS_call_stopped (p : Proc) (hi : FInvS p) (hs : p.frozen.isSome = true) (op : Op) (pl : Plan) :
+    FInvS (runOp p op pl).1 := by
   cases op with
-  | set key val => exact finvS_set p hi key val k wf
+  | set key val => exact finvS_set p hi key val pl
   | store first es seals => simp only [runOp, hs, ↓reduceIte]; exact hi
   | delHead newMin => simp only [runOp, hs, ↓reduceIte]; exact hi
   | delTail newMax => simp only [runOp, hs, ↓reduceIte]; exact hi
